@@ -26,24 +26,24 @@ add("C11", "exploration",
 
 
 add("C04", "exploration",
-    "Generated-input search over geometry models (7 types x 4 coordinate types, empties at every position, nesting depth 4, zero values, all float64 classes incl. NaN/Inf in Z/M) x per-element byte order x trailing bytes. Oracles: an independent WKB writer/reader written from the ISO spec and bit-wise structural comparison of model trees; library decode must invert library encode and the independent mixed-endian encoding, re-encode must reproduce bytes, Value/Scan of Geometry, NullGeometry and all 7 concrete types (destinations pre-populated with another value) must round trip and reject other types.",
+    "Generated-input search over geometry models (7 types x 4 coordinate types, empties at every position, nesting depth 4, zero values, all float64 classes incl. NaN/Inf in Z/M) x per-element byte order x trailing bytes. Oracles: an independent WKB writer/reader written from the ISO spec and bit-wise structural comparison of model trees; library decode must invert library encode and the independent mixed-endian encoding, re-encode must reproduce bytes, decoded values must own their data (the input buffer is overwritten afterwards, at several alignments), Append works into destinations with spare capacity and twice in a row, the []byte returned by Value() is not reused, a copy held of a Scan destination survives the next Scan, Value/Scan of Geometry, NullGeometry and all 7 concrete types (destinations pre-populated with another value) must round trip and reject other types.",
     "Trusted: independent codec (internal/codec/wkb.go), gm model conversion (read-back checked per case), rapid. Scan paths are exercised only on cases the library validates (valid-by-construction family, about 80% of cases).",
     "property-based testing (rapid): round-trip + differential against an independent codec",
     "DESIGN.md C04")
 add("C05", "exploration",
-    "Generated-input search over geometry models with all finite float64 classes x AppendWKT prefixes x token-level re-spellings (keyword case, separators, bare and parenthesised MultiPoint members mixed in one text, plain and exponent numerals mixed) x trailing tokens. Oracles: independent OGC-grammar WKT parser/printer, structural bit-wise comparison, a shortest-decimal test that tries the one-digit-shorter candidates, the independent WKB writer for WKT/WKB agreement; plus enumerated zero values of every Go type and hostile texts (NaN/Inf numerals, mixed dimensions) that must be rejected.",
+    "Generated-input search over geometry models with all finite float64 classes x AppendWKT prefixes x token-level re-spellings (keyword case, separators, bare and parenthesised MultiPoint members mixed in one text, plain and exponent numerals mixed) x trailing tokens. Oracles: independent OGC-grammar WKT parser/printer, structural bit-wise comparison, a shortest-decimal test that tries the one-digit-shorter candidates, the independent WKB writer for WKT/WKB agreement; plus enumerated zero values of every Go type, collections with 31..200 members, and hostile texts (NaN/Inf numerals, mixed dimensions) that must be rejected.",
     "Trusted: independent WKT grammar (internal/codec/wkt.go), strconv.ParseFloat correct rounding, rapid.",
     "property-based testing (rapid): round-trip + grammar-based metamorphic re-spelling",
     "DESIGN.md C05")
 add("C18", "exploration",
-    "Generated-input search over triples A, B=mutate(A), C=mutate(B) where each mutation changes exactly one respect (one ulp, swap, rotation, reversal, emptiness, coordinate type, wrapping, zero sign, reorder, drop/duplicate, jitter). Oracles: WKB equality via the independent writer (no options), a brute-force order-insensitive matcher with exact rational ring-simplicity (IgnoreOrder), exact distances for the ToleranceXY premises; reflexivity/symmetry/transitivity on the triple.",
+    "Generated-input search over triples A, B=mutate(A), C=mutate(B) where each mutation changes exactly one respect (one ulp, swap, rotation, reversal, emptiness, coordinate type, wrapping, zero sign, reorder, drop/duplicate, jitter). Oracles: WKB equality via the independent writer (no options), a brute-force order-insensitive matcher with exact rational ring-simplicity (IgnoreOrder), exact distances for the ToleranceXY premises; reflexivity/symmetry/transitivity on the triple; stored option values applied repeatedly.",
     "Trusted: independent WKB writer, exact rational kernel (internal/exact/rat.go), rapid. Open known finding F18 (rings at magnitudes < 1e-150 or > 1e150) is excluded by class and counted.",
     "property-based testing (rapid): single-difference mutant pairs vs model equality",
     "DESIGN.md C18")
 
 
 add("C06", "exploration",
-    "Three generated families: valid geometry models -> MarshalJSON checked by encoding/json and an RFC 7946 structure validator, and UnmarshalGeoJSON / json.Unmarshal into Geometry and all 7 concrete types (destinations pre-populated with another value) compared with the harness-computed image (M dropped, empty Points omitted from MultiPoints, Z kept iff a position exists); grammar-generated GeoJSON documents (positions of length 0..5, wrong nesting, non-numeric elements, null/missing members, unknown types) with the expected outcome computed from the document; Features/FeatureCollections with generated ids, properties and foreign members compared as decoded JSON, malformed features rejected.",
+    "Three generated families: valid geometry models -> MarshalJSON checked by encoding/json and an RFC 7946 structure validator, and UnmarshalGeoJSON / json.Unmarshal into Geometry and all 7 concrete types (destinations pre-populated with another value) compared with the harness-computed image (M dropped, empty Points omitted from MultiPoints, Z kept iff a position exists); grammar-generated GeoJSON documents (positions of length 0..5, wrong nesting, non-numeric elements, null/missing members, unknown types) with the expected outcome computed from the document; Features/FeatureCollections with generated ids, properties and foreign members (names incl. ones that need JSON escaping) compared as decoded JSON, decode destinations pre-populated with another feature / longer collection, malformed features rejected.",
     "Trusted: encoding/json, the RFC 7946 validator and document oracle in props/c06_test.go. Documents RFC 7946 leaves open (null coordinates, GeometryCollection without geometries, nulls nested in coordinates) are only required to be handled without panic / to decode to the empty geometry.",
     "property-based testing (rapid): round-trip against a format-loss model + grammar-based document generation",
     "DESIGN.md C06")
@@ -62,14 +62,14 @@ add("C08", "fault_enumeration",
 
 
 add("C03", "exploration",
-    "Generated-input search on dense integer grids (side 3..6) with geometries built without validation: raw rings/lines (random or angularly sorted lattice points, reused vertices, unclosed rings, repeated vertices), valid geometries traced from triangulated-grid subsets with one breaking edit, shells with holes traced from triangle subsets (touching chains/cycles of holes: multi-touch, nested, disconnected interior), NaN/Inf injection; plus an exhaustive sub-space (every triangle/rectangle on a 4x4 grid as an extra ring, every start vertex and direction). The verdict of Validate (on Geometry and the concrete type) must equal a definitional oracle in exact rational arithmetic and must not change under ring rotation/reversal, hole/member permutation, translation, reflection; IsSimple/IsRing/IsClosed must equal their definitional values; the validating WKT/WKB/GeoJSON/TWKB decoders must accept exactly the valid inputs.",
+    "Generated-input search on dense integer grids (side 3..6) with geometries built without validation: raw rings/lines (random or angularly sorted lattice points, reused vertices, unclosed rings, repeated vertices), valid geometries traced from triangulated-grid subsets with one breaking edit, shells with holes traced from triangle subsets (touching chains/cycles of holes: multi-touch, nested, disconnected interior), NaN/Inf injection; plus an exhaustive sub-space (every triangle/rectangle on a 4x4 grid as an extra ring, every start vertex and direction). The verdict of Validate (on Geometry and the concrete type) must equal a definitional oracle in exact rational arithmetic and must not change under ring rotation/reversal, hole/member permutation, translation, reflection; IsSimple/IsRing/IsClosed must equal their definitional values; the validating WKT/WKB/GeoJSON/TWKB decoders must accept exactly the valid inputs; the verdict must not change when Z/M payload is added; an inscribed family (a ring through corners/edge midpoints of another, same bounding box).",
     "Trusted: the exact kernel (internal/exact: rational arithmetic, pairwise segment intersection, slab-cell union-find for interior connectedness), unit-tested on hand cases; its invariance under the representation change is asserted per case.",
     "property-based testing (rapid) + exhaustive small-space enumeration vs an exact-arithmetic definitional oracle; metamorphic representation changes",
     "DESIGN.md C03")
 
 
 add("C01", "exploration",
-    "Generated ordered pairs of valid geometries (all 7x7 type pairs, overlapping collection members, empties) on triangulated integer grids that coincide, are offset by half a cell or shifted, under an injective integer map (optionally an exact dyadic affine image), a hole-nesting family, and a general-position float family (random 53-bit mantissas in a window: crossing points are not representable, the library must round its nodes). An exact rational arrangement of both operands gives, for every vertex, sub-edge and slab trapezoid, its membership in A and B; the expected result of each operation is the closed Boolean combination of those cells with its exact area, remainder length and isolated-point count. Every library result (Union, Intersection, Difference both orders, SymmetricDifference, argument orders swapped, UnaryUnion, Union(x,x), UnionMany) must be error-free, valid (oracle and Validate), contain exactly the expected face probes, have every expected remainder edge/point within tau, match the three measures and have the canonical shape. Because every operation is compared with the same exact point set, the Boolean-algebra laws hold as a consequence.",
+    "Generated ordered pairs of valid geometries (all 7x7 type pairs, overlapping collection members, empties) on triangulated integer grids that coincide, are offset by half a cell or shifted, under an injective integer map (optionally an exact dyadic affine image), a hole-nesting family, and a general-position float family (random 53-bit mantissas in a window: crossing points are not representable, the library must round its nodes), and a concurrent family (3..14 integer segments through one non-lattice point); repeated consecutive vertices; every operation repeated on the same operands carrying Z/M/ZM payload. An exact rational arrangement of both operands gives, for every vertex, sub-edge and slab trapezoid, its membership in A and B; the expected result of each operation is the closed Boolean combination of those cells with its exact area, remainder length and isolated-point count. Every library result (Union, Intersection, Difference both orders, SymmetricDifference, argument orders swapped, UnaryUnion, Union(x,x), UnionMany) must be error-free, valid (oracle and Validate), contain exactly the expected face probes, have every expected remainder edge/point within tau, match the three measures and have the canonical shape. Because every operation is compared with the same exact point set, the Boolean-algebra laws hold as a consequence.",
     "Trusted: exact kernel (internal/exact). Strict domain (exact clearance >= 1e-6 x magnitude) only; probes closer than tau = 1e-9 x magnitude to an arrangement edge are skipped and counted.",
     "property-based testing (rapid) vs an exact-arithmetic arrangement oracle",
     "DESIGN.md C01")
@@ -96,7 +96,7 @@ add("C12", "exploration",
     "exhaustive enumeration of a finite lattice + property-based testing (rapid)",
     "DESIGN.md C12")
 add("C13", "exploration",
-    "Point multisets (1..200 integer points, collinear / on a square border / scattered, with repetitions) wrapped in every geometry type and re-ordered; general-position float points; every subset of 1..6 points of the 4x4 grid. The hull must satisfy a characterisation checked in exact arithmetic (type by affine rank; closed CCW ring of strict left turns; vertices are control points; every control point on or left of every edge), be idempotent bit-for-bit and independent of order/multiplicity; rotated rectangles must be rectangles covering the hull, have a side on a hull edge and match the exact minimum area / width over edge-aligned rectangles.",
+    "Point multisets (1..200 integer points, collinear / on a square border / scattered, with repetitions) wrapped in every geometry type and re-ordered; general-position float points; every subset of 1..6 points of the 4x4 grid. The hull must satisfy a characterisation checked in exact arithmetic (type by affine rank; closed CCW ring of strict left turns; vertices are control points; every control point on or left of every edge), be idempotent bit-for-bit, independent of order/multiplicity and of Z/M payload, equal to the hull from the concrete type's method, and still read the same after hulls of other geometries have been computed; rotated rectangles must be rectangles covering the hull, have a side on a hull edge and match the exact minimum area / width over edge-aligned rectangles.",
     "Trusted: exact orientation predicate. Float points that are not in general position (relative 1e-6) are skipped and counted. Library calls run under a watchdog: a call that does not return is reported as a hang only if it repeats when re-run alone.",
     "property-based testing (rapid) + exhaustive small-space enumeration vs an exact characterisation",
     "DESIGN.md C13")
@@ -106,12 +106,12 @@ add("C14", "exploration",
     "property-based testing (rapid) vs exact-arithmetic measures + metamorphic relations",
     "DESIGN.md C14")
 add("C15", "exploration",
-    "Valid geometries of every type (triangulated-grid shapes and comb / side-by-side-hole shapes whose scan lines see several solid stretches and wider gaps): Boundary(g) has lower dimension or is empty, an empty boundary itself, every vertex and segment midpoint of it is located Boundary in g by the exact OGC locator, its points are exactly the odd-degree end points and its segments exactly g's ring segments, a collection's boundary is the ordered list of its members' non-empty boundaries; PointOnSurface(g) is empty iff g is, finite, XY, exactly interior for areal g and on a member of the highest dimension otherwise; Dimension/IsEmpty equal the structural values.",
+    "Valid geometries of every type (triangulated-grid shapes and comb / side-by-side-hole shapes whose scan lines see several solid stretches and wider gaps): Boundary(g) has lower dimension or is empty, an empty boundary itself, every vertex and segment midpoint of it is located Boundary in g by the exact OGC locator, its points are exactly the odd-degree end points and its segments exactly g's ring segments, a collection's boundary is the ordered list of its members' non-empty boundaries; boundary and point on surface do not change when Z/M payload is added; PointOnSurface(g) is empty iff g is, finite, XY, exactly interior for areal g and on a member of the highest dimension otherwise; Dimension/IsEmpty equal the structural values.",
     "Trusted: exact kernel.",
     "property-based testing (rapid) vs the exact OGC point locator",
     "DESIGN.md C15")
 add("C16", "exploration",
-    "Geometries of 7 types x 4 coordinate types with unique per-vertex Z/M tags (empties, nesting, zero values): a recursive walker asserts one CoordinatesType() for the geometry and everything reachable after construction and after every operation; mixed-type constructors reduce to the common subset; ForceCoordinatesType/Force2D equal the harness model exactly; Reverse/ForceCW/ForceCCW/AsMulti*/Dump keep the multiset of full positions; DumpCoordinates order; TransformXY/SnapToGrid touch XY only; Densify keeps tagged originals and interpolates Z/M; Simplify emits only tagged originals; WKB/WKT round trips; XY-only operations return XY throughout.",
+    "Geometries of 7 types x 4 coordinate types with unique per-vertex Z/M tags (empties, nesting, zero values): a recursive walker asserts one CoordinatesType() for the geometry and everything reachable after construction and after every operation; mixed-type constructors reduce to the common subset; Z/M fields a coordinate type does not have read zero; Slice views never write to their parent sequence; ring closing positions may carry Z/M of their own; ForceCoordinatesType/Force2D equal the harness model exactly; Reverse/ForceCW/ForceCCW/AsMulti*/Dump keep the multiset of full positions and every line/ring as it was or exactly reversed; set operations with an empty operand in either position return XY; DumpCoordinates order; TransformXY/SnapToGrid touch XY only; Densify keeps tagged originals and interpolates Z/M; Simplify emits only tagged originals; WKB/WKT round trips; XY-only operations return XY throughout.",
     "Trusted: gm model conversion (read-back checked).",
     "property-based testing (rapid): tagged-vertex tracking against a harness model",
     "DESIGN.md C16")
